@@ -31,6 +31,10 @@ def value(rng, escaped=True, blanks=True, nonascii=True, maxlen=10):
             out.append(rng.choice(PLAIN))
         elif r < 0.78 and blanks and 0 < i < n - 1:
             out.append(" ")
+        elif r < 0.785 and nonascii and 0 < i < n - 1:
+            # characters that str.splitlines() treats as line boundaries but file reading does not (interior only:
+            # str.strip() also treats them as whitespace)
+            out.append("\u2028" if not escaped else rng.choice(["\u2028", "\u2029", "\x85"]))
         elif r < 0.86 and nonascii:
             out.append(rng.choice(NONASCII))
         elif r < 0.96 and escaped:
